@@ -162,13 +162,29 @@ def cell_parser(ctx, I):
             continue
         ok = r1 == ("typed", tname, "12") and r2 == ("typed", tname, "7") and isinstance(r3, tuple) and r3[:2] == ("typed", tname) and "nan" in str(r3[2]).lower()
         ctx.ob("C16.cell-parser", tname, ok, f"data -> {r1!r}; missing marker -> {r2!r}; missing with NaN fill -> {r3!r}", loc)
+        # only the marker itself is a missing cell: text that differs from it in letter case, by a prefix/suffix or by doubling is data
+        # (the writer stores such cells verbatim, so the reader must hand them back)
+        near = []
+        for marker, cells in (("NA", ("na", "Na", "nA", "NAN", "N", "NA.", "NANA")), ("NaN", ("nan", "NAN", "Nan", "Na")), ("-", ("--", "-1", "- -")),
+                              ("null", ("NULL", "Null", "nul"))):
+            try:
+                hit = I.call(f, (fv, marker, marker, "7"))
+                if hit != ("typed", tname, "7"):
+                    near.append(f"marker {marker!r} itself -> {hit!r}")
+                for c in cells:
+                    got = I.call(f, (fv, c, marker, "7"))
+                    if got != ("typed", tname, c):
+                        near.append(f"marker {marker!r}: cell {c!r} -> {got!r}")
+            except RaiseSig as r_:
+                near.append(f"marker {marker!r}: raises {r_.exc.typename}")
+        ctx.ob("C16.cell-parser", f"{tname}:cells that are not the marker are data", not near, "; ".join(near[:4]), loc)
     fvb = CallableType("bool")
     try:
         rs = [I.call(f, (fvb, s_, "-", None)) for s_ in ("True", "yes", "0", "false")]
         ctx.ob("C16.cell-parser", "bool", rs == [True, True, False, False], f"boolean cells parsed as {rs}", loc)
     except RaiseSig as r_:
         ctx.ob("C16.cell-parser", "bool", False, f"raises {r_.exc.typename}", loc)
-    ctx.floor("C16.cell-parser", 5)
+    ctx.floor("C16.cell-parser", 9)
 
 
 class CallableType:
